@@ -658,7 +658,7 @@ def check_run(r, programs, setup, kind='cache', stats=None, init=None):
 def trace_record(r, programs, schedule, setup, mode, settings, kind='cache'):
     return {'programs': programs, 'schedule': list(schedule), 'schedule_used': r['schedule_used'], 'setup': setup, 'mode': mode,
             'settings': settings, 'kind': kind,
-            'calls': [[{k: v for k, v in rec.items() if k in ('client', 'index', 'op', 'call', 'result', 'exc', 'first', 'last', 'events', 'depth')}
+            'calls': [[{k: v for k, v in rec.items() if k in ('client', 'index', 'op', 'call', 'result', 'exc', 'first', 'last', 'events', 'depth', 'skipped')}
                        for rec in recs] for recs in r['calls']],
             'log': r['log']}
 
